@@ -58,6 +58,11 @@ def program(rng, mapping, defines):
     if rng.random() < 0.5:
         tree.append(("block", [("label", "zz_same"), ("op", "nop")]))
         tree.append(("block", [("op", "nop"), ("label", "zz_same"), ("data", "dw", ["zz_same"])]))
+    # labels that share one address (stacked, an end label followed by a start label): each is listed
+    if rng.random() < 0.6:
+        tree.append(("label", "zz_stack_a"))
+        tree.append(("label", "zz_stack_b"))
+        tree.append(("block", [("label", "zz_stack_c"), ("op", "nop")]))
     if rng.random() < 0.3:
         tree.append(("org", rng.choice(ORG[mapping])))
         tree.append(("data", "db", ["1", "2", "3"]))
@@ -122,6 +127,16 @@ def cases(ctx):
             for fmt in ("ips", "sfc"):
                 out.append({"kind": f"verbatim-text:{name}:{fmt}", "rom": mapping, "mapping": mapping, "format": fmt, "copier": False,
                             "defines": {}, "src": src, "api": True, "cli": fmt == "ips", "symfile": True, "spec": {"t": "c12"}})
+    # a program that declares its own address mapping (.map), through every front end and mapping option
+    usermap = (".map identifier=1 bank_range=0x70,0x7d addr_range=0x8000,0xffff mask=0x8000\n"
+               ".map identifier=2 bank_range=0x00,0x3f addr_range=0x8000,0xffff mask=0x8000 mirror_bank_range=0x80,0xbf\n"
+               "*=0x708000\nzz_hi:\n.db 1, 2\n.dl zz_hi\n*=0x018000\nzz_lo:\nnop\n.dl zz_lo\n")
+    for mapping in (None, "low", "low2", "high"):
+        for fmt in ("ips", "sfc"):
+            for copier in ((False, True) if fmt == "ips" else (False,)):
+                out.append({"kind": f"user-map:{fmt}:{mapping}", "rom": mapping, "mapping": mapping, "format": fmt, "copier": copier,
+                            "defines": {}, "src": usermap, "api": True, "cli": mapping is not None and not copier, "symfile": True,
+                            "spec": {"t": "c12"}})
     # programs that write no byte at all: the output is still a complete file of its format (PATCH + EOF / an empty image)
     for mapping in (None, "low", "high"):
         for name, src in (("empty", ""), ("symbols-only", "zz_a := 1\nzz_b = zz_a + 1\n"), ("labels-only", "*=0x408000\nzz_l:\nzz_m:\n"),
